@@ -19,7 +19,7 @@ use std::{
 };
 
 /// Thorough tier: occasionally generate graphs with 200 / 999 / 1000 nodes.
-static BIG_GRAPHS: std::sync::atomic::AtomicBool = std::sync::atomic::AtomicBool::new(false);
+static BIG_GRAPHS: std::sync::atomic::AtomicU8 = std::sync::atomic::AtomicU8::new(0);
 
 pub const D2_SIGNATURE: &str = "D2:two-solutions-same-contract-same-key-different-values";
 
@@ -166,8 +166,11 @@ impl<'a> Eng<'a> {
 
 fn opts_for(prop: &str, r: &mut Rng) -> GenOpts {
     let mut o = GenOpts::default();
-    if BIG_GRAPHS.load(Ordering::Relaxed) {
-        o.big_graphs = 0.002;
+    // graphs at the validator's limits (200 / 999 / 1000 nodes): rare in the quick tier, more in the thorough one
+    match BIG_GRAPHS.load(Ordering::Relaxed) {
+        2 => o.big_graphs = 0.002,
+        1 => o.big_graphs = 0.0004,
+        _ => {}
     }
     match prop {
         "C01" => {
@@ -378,7 +381,8 @@ pub fn run(args: &Args, rep: &mut Report) {
     let mut r = Rng::new(crate::rng::mix(args.seed.wrapping_mul(1_000_003) + args.shard as u64, 0x5ce7));
     let scale = |q: f64, t: f64| (((if thorough { t } else { q }) * args.scale) as u64 / args.nshards as u64).max(1);
     let mut e = Eng { rep, spy: spy.clone(), pools: Pools::new(), orders: BTreeSet::new(), last_digests: BTreeMap::new() };
-    BIG_GRAPHS.store(thorough && args.regime != "miri" && args.regime != "tsan", Ordering::Relaxed);
+    let instrumented = args.regime == "miri" || args.regime == "tsan" || args.regime == "valgrind-memcheck";
+    BIG_GRAPHS.store(if instrumented { 0 } else if thorough { 2 } else { 1 }, Ordering::Relaxed);
     match args.prop.as_str() {
         "C01" | "C03" | "C06" | "C16" => {
             let n = scale(30_000.0, 1_200_000.0);
